@@ -1720,15 +1720,18 @@ func runC02(args []string) error {
 					impl = "FAIL:" + f
 				}
 				if impl != exp {
+					region, predicted := c02KnownDefect(s, i, exp, impl)
+					// model Y in Coq covers the main stream and the regions it models; the other regions
+					// are predicted by the harness itself (exact agreement required below)
+					coqModelled := region == "" || region == "neg-shift" || region == "uintptr-incdec" || region == "iface-assign"
 					id := 0
-					if mismatchCases < 6000 {
+					if mismatchCases < 6000 && coqModelled {
 						id = addCase(s, i, impl, exp)
 						mismatchCases++
 					} else {
 						caseID++
 						id = caseID
 					}
-					region, predicted := c02KnownDefect(s, i, exp, impl)
 					note := ""
 					if predicted != "" && predicted != impl {
 						note = "in region " + region + " but the known defect would print " + predicted
